@@ -18,6 +18,7 @@ SEARCH = {
     "C11": [["escape", "both", "3"]],
     "C16": [["config"]],
     "C08": [["c08", "4"]],
+    "C10": [["c10", "3"]],
 }
 THOROUGH = {
     "C01": [["diff", "C01", "3", "4"]],
@@ -28,6 +29,7 @@ THOROUGH = {
     "C11": [["axioms"], ["escape", "both", "4"]],
     "C16": [["config"]],
     "C08": [["c08", "6"]],
+    "C10": [["c10", "4"]],
 }
 
 
